@@ -210,6 +210,9 @@ func (p *Path) bigLt(x, y *Term) *Term {
 }
 
 func (p *Path) bigAbs(x *Term) *Term {
+	if p.bvMode() && p.isNonneg(x) { // bignonneg.go
+		return x
+	}
 	r := p.tt.Ite(p.bigIsNeg(x), p.bigNeg(x), x)
 	p.setBound(r, p.bound(x))
 	return r
@@ -239,6 +242,20 @@ func (p *Path) bigDivMod(x, y *Term) (d, m *Term) {
 	tt := p.tt
 	if !p.bvMode() {
 		return tt.IDiv(x, y), tt.IMod(x, y)
+	}
+	if y.IsConst() && y.Signed().Sign() > 0 {
+		// Euclidean division by a positive constant 2^k is floor division:
+		// arithmetic shift right, remainder = the low k bits (exact; avoids a
+		// W-bit divider circuit).
+		if yv := y.Signed(); yv.BitLen() >= 2 && new(big.Int).And(yv, new(big.Int).Sub(yv, bigOne)).Sign() == 0 {
+			k := yv.BitLen() - 1
+			w := x.S.W
+			d = tt.BVAShr(x, BVConstU(uint64(k), w))
+			m = tt.ZExt(tt.Extract(x, k-1, 0), w)
+			p.setBound(d, p.bound(x))
+			p.setBound(m, k)
+			return
+		}
 	}
 	q, r := tt.BVSDiv(x, y), tt.BVSRem(x, y)
 	zero := BVConstU(0, x.S.W)
@@ -275,6 +292,9 @@ func isMask(v *big.Int) (int, bool) {
 func (p *Path) bigAnd(x, y *Term) *Term {
 	if p.bvMode() {
 		r := p.tt.BVAnd(x, y)
+		if p.isNonneg(x) || p.isNonneg(y) {
+			p.setNonneg(r)
+		}
 		// bound: if either is non-negative with known bound
 		bx, by := p.bound(x), p.bound(y)
 		b := p.bigW()
@@ -326,6 +346,9 @@ func (p *Path) bigLsh(x *Term, n *Term) *Term {
 			return tt.Eq(tt.BVAShr(r, BVConstU(uint64(k), w)), x)
 		}, "Lsh")
 		p.setBound(r, min(nb, w))
+		if p.isNonneg(x) {
+			p.setNonneg(r)
+		}
 		return r
 	}
 	w := p.bigW()
@@ -340,7 +363,14 @@ func (p *Path) bigLsh(x *Term, n *Term) *Term {
 		}
 		return tt.And(tt.ULt(amt, BVConstU(uint64(w), w)), tt.Eq(tt.BVAShr(r, amt), x))
 	}, "Lsh(symbolic)")
-	p.setBound(r, w)
+	nb := w
+	if ra := tt.urange(amt); ra.ok && ra.hi < uint64(w) { // shift amount bounded syntactically (termrange.go)
+		nb = min(w, p.bound(x)+int(ra.hi))
+	}
+	p.setBound(r, nb)
+	if p.isNonneg(x) {
+		p.setNonneg(r)
+	}
 	return r
 }
 
@@ -362,6 +392,9 @@ func (p *Path) bigRsh(x *Term, n *Term) *Term {
 	}
 	r := tt.BVAShr(x, amt)
 	p.setBound(r, p.bound(x))
+	if p.isNonneg(x) {
+		p.setNonneg(r)
+	}
 	return r
 }
 
@@ -390,18 +423,24 @@ func (p *Path) bigBitLen(x *Term) *Term {
 			}
 		}
 	}
-	// bitlen = number of k in [0,maxb) with a >= 2^k ; build as ite chain from the top
-	res := BVConstU(0, 64)
-	for k := 0; k < maxb; k++ {
+	// bitlen in [0,maxb]; bitlen >= k+1 iff a >= 2^k.  Built as a balanced
+	// decision tree (depth log2 maxb): a linear ite chain of several hundred
+	// levels costs z3 ~10 s of macro expansion per query.
+	var tree func(lo, hi int) *Term
+	tree = func(lo, hi int) *Term {
+		if lo == hi {
+			return BVConstU(uint64(lo), 64)
+		}
+		mid := (lo + hi) / 2
 		var ge *Term
 		if p.bvMode() {
-			ge = tt.ULe(BVConst(pow2(k), a.S.W), a)
+			ge = tt.ULe(BVConst(pow2(mid), a.S.W), a)
 		} else {
-			ge = tt.ILe(IConst(pow2(k)), a)
+			ge = tt.ILe(IConst(pow2(mid)), a)
 		}
-		res = tt.Ite(ge, BVConstU(uint64(k+1), 64), res)
+		return tt.Ite(ge, tree(mid+1, hi), tree(lo, mid))
 	}
-	return res
+	return tree(0, maxb)
 }
 
 // bigBytesLen returns concrete byte length of |x| (forking over the possibilities).
@@ -450,7 +489,12 @@ func (p *Path) bigFromBytes(bs []*Term) *Term {
 			}
 			r := tt.Extract(cat, w-1, 0)
 			p.setBound(r, w-1)
+			p.setNonneg(r)
 			return r
+		}
+		// SetBytes(x.Bytes()) for a non-negative x below 2^(8n): the bytes are x itself
+		if cat.Op == OpExtract && cat.P2 == 0 && cat.Args[0].S.W == w && p.isNonneg(cat.Args[0]) && p.bound(cat.Args[0]) <= cat.S.W {
+			return cat.Args[0]
 		}
 		r := tt.ZExt(cat, w)
 		p.setBound(r, cat.S.W)
@@ -506,6 +550,9 @@ func init() {
 	bin("Or", func(p *Path, x, y *Term) *Term {
 		if p.bvMode() {
 			r := p.tt.BVOr(x, y)
+			if p.isNonneg(x) && p.isNonneg(y) {
+				p.setNonneg(r)
+			}
 			p.setBound(r, max(p.bound(x), p.bound(y)))
 			return r
 		}
@@ -517,6 +564,9 @@ func init() {
 	bin("Xor", func(p *Path, x, y *Term) *Term {
 		if p.bvMode() {
 			r := p.tt.BVXor(x, y)
+			if p.isNonneg(x) && p.isNonneg(y) {
+				p.setNonneg(r)
+			}
 			p.setBound(r, max(p.bound(x), p.bound(y)))
 			return r
 		}
@@ -643,6 +693,9 @@ func init() {
 	})
 	reg(B+"Bytes", func(p *Path, fn *ssa.Function, a []Value) Value {
 		x := p.bigAbs(p.bigLoad(a[0]))
+		if v, ok := p.bigBytesSym(x); ok { // symslice.go (suite option sym_slices)
+			return v
+		}
 		n := p.bigByteLen(x)
 		out := make([]*Term, n)
 		for i := 0; i < n; i++ {
